@@ -35,6 +35,7 @@ let () = run_protocol [
         | VZ 0 :: v :: r -> OpLen (gv v) :: ops r
         | VZ 1 :: v :: r -> OpAnis (gv v) :: ops r
         | VZ 2 :: v :: r -> OpAngles (gv v) :: ops r
+        | VZ 3 :: VN d :: r -> OpDim (ni d) :: ops r
         | _ -> failwith "bad op list" in
       (match mk_model dim sd ll tp geo ls an ang with None -> VNone
        | Some m -> (match gsteps o m (ops rest) with None -> VNone | Some m' -> show_model m')) | _ -> failwith "arity");
